@@ -2,7 +2,7 @@ import Amgcl.Proofs.AdaptersOrder
 import Amgcl.Proofs.AdaptersSolve
 import Amgcl.Proofs.AdaptersTuple
 import Amgcl.Properties.C13
-import Amgcl.Model.AdaptersIlu0
+import Amgcl.Model.RelaxIlu
 /-!
 # C17 — matrix adapters preserve the operator; input row order does not matter
 
@@ -220,10 +220,10 @@ constructor as it was (`asPrecondUnsorted`: copy, no `sort_rows`) ILU(0) built f
 the sorted matrix: the elimination loop leaves row 1 at its first entry (`c ≥ i`) and never eliminates `−16`. -/
 theorem unsorted_ctor_counterexample :
     ∃ (A' A : CRS Rat) (rhs : Vec Rat), RowPermOf A' A ∧ A.nodupb = true ∧ A.WF ∧
-      applyOf (Adapters.Ilu.ilu0 1) (asPrecondUnsorted (Adapters.Ilu.ilu0 1) A') rhs
-        ≠ applyOf (Adapters.Ilu.ilu0 1) (asPrecondUnsorted (Adapters.Ilu.ilu0 1) A) rhs ∧
-      applyOf (Adapters.Ilu.ilu0 1) (asPrecond (Adapters.Ilu.ilu0 1) A') rhs
-        = applyOf (Adapters.Ilu.ilu0 1) (asPrecond (Adapters.Ilu.ilu0 1) A) rhs := by
+      applyOf (Relax.ilu0 1) (asPrecondUnsorted (Relax.ilu0 1) A') rhs
+        ≠ applyOf (Relax.ilu0 1) (asPrecondUnsorted (Relax.ilu0 1) A) rhs ∧
+      applyOf (Relax.ilu0 1) (asPrecond (Relax.ilu0 1) A') rhs
+        = applyOf (Relax.ilu0 1) (asPrecond (Relax.ilu0 1) A) rhs := by
   refine ⟨⟨2, #[[(0, 18), (1, -16)], [(1, 16), (0, -16)]]⟩, ⟨2, #[[(0, 18), (1, -16)], [(0, -16), (1, 16)]]⟩,
     #[1, 0], ⟨rfl, rfl, ?_⟩, by decide, by decide, by decide +kernel, by decide +kernel⟩
   intro i
